@@ -812,6 +812,56 @@ def c_obs(o) -> str:
 CASE_TYPE = "list level * list (option (list hookop)) * option (option string) * list Z * dict * observation"
 
 
+# ---------------------------------------------------------------------------
+# listed findings and the correspondences
+# ---------------------------------------------------------------------------
+# Rule (round 6; the fresh-copy alarm `C09-1-unshown.json` of the round-3 state was a hand-written Coq copy of the
+# listed defect `plain-config-inherit` -- builder_cfg / no_plain_inherit -- that disagreed with /repo once the defect had
+# been repaired there, while the oracle had nothing to show): a listed finding is NEVER represented in a Coq definition
+# or in a comparison function.  The implementation model follows /repo through the translated kernels only, the reference
+# is the property text, and the one place a listed finding is tolerated is here: a correspondence mismatch is accepted
+# iff, on that very input, the oracle observed the real implementation deviating from KEYMODEL with a signature that
+# matches an open entry of known_findings (it is then counted by the KNOWN-FINDING line, `reproduced n x`).  A finding
+# that is listed but no longer reproduces (0 x: repaired in /repo) therefore changes nothing: code, reference and the
+# translated model agree, and nothing refers to the finding.
+
+class Listed:
+    def __init__(self, pid):
+        self.pid = pid
+        self.kfs = vlib.load_known_findings()
+        self.flags = {}
+
+    def fail(self, ctx, stream, idx, what, replay, sig):
+        """ctx.fail + remember whether this failure of case `idx` of `stream` is a listed finding"""
+        ctx.fail(what, replay, sig)
+        hit = vlib.match_known(self.pid, vlib.Failure(what, replay, sig), self.kfs) is not None
+        self.flags.setdefault((stream, idx), []).append(hit)
+
+    def explained(self, stream, idx) -> bool:
+        fl = self.flags.get((stream, idx))
+        return bool(fl) and all(fl)
+
+
+LISTED = Listed("C09")
+
+
+def settle(ctx, stream, name, n, bad, log, describe):
+    """Record a correspondence; mismatches that are not explained by a listed finding reproduced on the same input
+    (stream None: no oracle runs on these cases, every mismatch counts) break the tie."""
+    if bad is None:
+        ctx.correspondence(name, n, -1, log)
+        ctx.not_shown("correspondence " + name, log)
+        return
+    open_ = [i for i in bad if stream is None or not LISTED.explained(stream, i)]
+    det = describe(bad) if bad else ""
+    if bad and not open_:
+        det = f"all {len(bad)} on inputs where the oracle reproduces a listed finding (see the KNOWN-FINDING lines); " + det
+    ctx.correspondence(name, n, len(bad), det)
+    if open_:
+        ctx.not_shown("correspondence " + name, describe(open_))
+
+
+
 def coq_check(name, model, items, ok_fun, ctx, shard=500, ctype=CASE_TYPE):
     """Like vlib.coq_bad_idx, but every shard file carries only the class definitions its cases use.
     items: [(class index, definition text, case text)]."""
@@ -1049,7 +1099,7 @@ def nested_stream(ctx, rng, k4_ok):
                 if obs0 is None:
                     obs0 = obs
                 if obs != exp:
-                    ctx.fail(f"{ename}({d!r}) -> {obs!r}, KEYMODEL says {exp!r}",
+                    LISTED.fail(ctx, "nested", len(items), f"{ename}({d!r}) -> {obs!r}, KEYMODEL says {exp!r}",
                              dict(replay_of(spec, src, ename, {}, obs, exp), input_nested=[[jsonable_key(k), v if not isinstance(v, dict) else {"dict": [[jsonable_key(a), b] for a, b in v.items()]}] for k, v in d.items()]),
                              {"kind": "nested-key-resolution", "observed": obs[0], "expected": exp[0]})
 
@@ -1093,14 +1143,8 @@ def nested_stream(ctx, rng, k4_ok):
     else:
         bad, log = None, "kernel K4 did not translate (the nested model is built on it)"
     name = "nested: nimpl(K4)/nkeymodel-vs-from_dict"
-    if bad is None:
-        ctx.correspondence(name, len(items), -1, log)
-        ctx.not_shown("correspondence " + name, log)
-    else:
-        det = "" if not bad else f"{len(bad)} cases, first: input {shown[bad[0]][1]!r}: implementation {shown[bad[0]][2]!r}\n{shown[bad[0]][0]}"
-        ctx.correspondence(name, len(items), len(bad), det)
-        if bad:
-            ctx.not_shown("correspondence " + name, det)
+    settle(ctx, "nested", name, len(items), bad, log,
+           lambda b: f"{len(b)} cases, first: input {shown[b[0]][1]!r}: implementation {shown[b[0]][2]!r}\n{shown[b[0]][0]}")
 
 
 
@@ -1404,7 +1448,7 @@ def deep_stream(ctx, rng, k4_ok):
                 ctx.hist("outcome", obs[0] + " (deep stream)")
                 obs0 = obs if obs0 is None else obs0
                 if obs != exp:
-                    ctx.fail(f"{ename}({d!r}) -> {obs!r}, KEYMODEL says {exp!r}",
+                    LISTED.fail(ctx, "deep", len(items), f"{ename}({d!r}) -> {obs!r}, KEYMODEL says {exp!r}",
                              dict(replay_of(spec, src, ename, {}, obs, exp), input_deep=d),
                              {"kind": "nested-key-resolution", "observed": obs[0], "expected": exp[0]})
             if obs0[0] == "inst":
@@ -1429,14 +1473,8 @@ def deep_stream(ctx, rng, k4_ok):
     else:
         bad, log = None, "kernel K4 did not translate (KeyDeep is built on it)"
     name = "deep (+hooks on every class): deeph_impl(K4)/deeph_ref-vs-from_dict"
-    if bad is None:
-        ctx.correspondence(name, len(items), -1, log)
-        ctx.not_shown("correspondence " + name, log)
-    else:
-        det = "" if not bad else f"{len(bad)} cases, first: input {shown[bad[0]][1]!r}: implementation {shown[bad[0]][2]!r}\n{shown[bad[0]][0]}"
-        ctx.correspondence(name, len(items), len(bad), det)
-        if bad:
-            ctx.not_shown("correspondence " + name, det)
+    settle(ctx, "deep", name, len(items), bad, log,
+           lambda b: f"{len(b)} cases, first: input {shown[b[0]][1]!r}: implementation {shown[b[0]][2]!r}\n{shown[b[0]][0]}")
 
 
 # ---------------------------------------------------------------------------
@@ -1535,7 +1573,7 @@ def diamond_stream(ctx, rng, k4_ok, dc_items, dc_shown):
                 ctx.hist("outcome", obs[0] + " (diamond stream)")
                 obs0 = obs if obs0 is None else obs0
                 if obs != exp:
-                    ctx.fail(f"{ename}({d!r}) -> {obs!r}, KEYMODEL says {exp!r}",
+                    LISTED.fail(ctx, "diamond", len(items), f"{ename}({d!r}) -> {obs!r}, KEYMODEL says {exp!r}",
                              replay_of(spec, src, ename, d, obs, exp),
                              {"kind": "key-resolution", "observed": obs[0], "expected": exp[0]})
             items.append((f"d{ci}", f"Definition td{ci} : list pyclassdef := {tbl}.", f"(td{ci}, {g}, {dfl}, {c_dict(d)}, {c_obs(obs0)})"))
@@ -1552,14 +1590,8 @@ def diamond_stream(ctx, rng, k4_ok, dc_items, dc_shown):
     else:
         bad, log = coq_check("c09_diamond", ("KeyModel KeyDc", "", ["theories/KeyDc.vo"]), items, okr, ctx, ctype=ctype)
     name = "diamond: impl(K4)/keymodel on dc_class-vs-from_dict"
-    if bad is None:
-        ctx.correspondence(name, len(items), -1, log)
-        ctx.not_shown("correspondence " + name, log)
-    else:
-        det = "" if not bad else f"{len(bad)} cases, first: input {shown[bad[0]][1]!r}: implementation {shown[bad[0]][2]!r}\n{shown[bad[0]][0]}"
-        ctx.correspondence(name, len(items), len(bad), det)
-        if bad:
-            ctx.not_shown("correspondence " + name, det)
+    settle(ctx, "diamond", name, len(items), bad, log,
+           lambda b: f"{len(b)} cases, first: input {shown[b[0]][1]!r}: implementation {shown[b[0]][2]!r}\n{shown[b[0]][0]}")
 
 
 def dc_check(ctx, dc_items, dc_shown):
@@ -1568,14 +1600,8 @@ def dc_check(ctx, dc_items, dc_shown):
     bad, log = coq_check("c09_dc", ("KeyModel KeyDc", "", ["theories/KeyDc.vo"]), dc_items, okf, ctx,
                          ctype="list pyclassdef * nat * list (string * option string * bool) * list (string * option string)")
     name = "dc_table/class_hints-vs-__dataclass_fields__/get_type_hints"
-    if bad is None:
-        ctx.correspondence(name, len(dc_items), -1, log)
-        ctx.not_shown("correspondence " + name, log)
-    else:
-        det = "" if not bad else f"{len(bad)} cases, first: class {dc_shown[bad[0]][1]}: real {dc_shown[bad[0]][2]} hints {dc_shown[bad[0]][3]}\n{dc_shown[bad[0]][0]}"
-        ctx.correspondence(name, len(dc_items), len(bad), det)
-        if bad:
-            ctx.not_shown("correspondence " + name, det)
+    settle(ctx, None, name, len(dc_items), bad, log,
+           lambda b: f"{len(b)} cases, first: class {dc_shown[b[0]][1]}: real {dc_shown[b[0]][2]} hints {dc_shown[b[0]][3]}\n{dc_shown[b[0]][0]}")
 
 
 # ---------------------------------------------------------------------------
@@ -1607,6 +1633,8 @@ def replay_of(spec, src, entry, d, obs, exp):
 
 
 def run(ctx: vlib.Ctx):
+    global LISTED
+    LISTED = Listed(ctx.pid)
     ctx.coverage["rule"] = (
         "class K = last of a hierarchy of 1..3 dataclasses (A -> B -> K) with 0..3 init fields; every field may be "
         "re-declared in a nearer class with other alias sources (the nearest declaration counts), or turned into an "
@@ -1778,7 +1806,7 @@ def run(ctx: vlib.Ctx):
                 if obs != exp:
                     n_mismatch_oracle += 1
                     kind = "key-resolution"
-                    ctx.fail(f"{ename}({dd!r}) -> {obs!r}, KEYMODEL says {exp!r}",
+                    LISTED.fail(ctx, "main", len(coq_cases), f"{ename}({dd!r}) -> {obs!r}, KEYMODEL says {exp!r}",
                              replay_of(spec, src, ename, dd, obs, exp),
                              {"kind": kind, "observed": obs[0], "expected": exp[0]})
             # all entry points agree? (if not, the oracle has already flagged at least one of them)
@@ -1801,17 +1829,8 @@ def run(ctx: vlib.Ctx):
     REF = ("KeyModel KeyRewrite", "", ["theories/KeyRewrite.vo"])
 
     def report(name, bad, log, n):
-        if bad is None:
-            ctx.correspondence(name, n, -1, log)
-            ctx.not_shown("correspondence " + name, log)
-            return
-        det = ""
-        if bad:
-            spec, src, en, d, obs = cases[bad[0]]
-            det = f"{len(bad)} cases, first: class\n{src}\ninput {d!r}: implementation {obs!r}"
-        ctx.correspondence(name, n, len(bad), det)
-        if bad:
-            ctx.not_shown("correspondence " + name, det)
+        settle(ctx, "main", name, n, bad, log,
+               lambda b: f"{len(b)} cases, first: class\n{cases[b[0]][1]}\ninput {cases[b[0]][3]!r}: implementation {cases[b[0]][4]!r}")
 
     n = len(coq_cases)
     n_dom = n
@@ -1849,14 +1868,7 @@ def run(ctx: vlib.Ctx):
     bad, log = coq_check("c09_src", src_model, src_items, okv, ctx,
                          ctype="list level * list level * list (string * option string * bool) * cfg")
     nm = "collect/nearest_cfg/impl_cfg(K4)-vs-CodeBuilder.dataclass_fields/get_config"
-    if bad is None:
-        ctx.correspondence(nm, len(src_items), -1, log)
-        ctx.not_shown("correspondence " + nm, log)
-    else:
-        det = "" if not bad else f"{len(bad)} cases, first: {src_shown[bad[0]][1:]} of\n{src_shown[bad[0]][0]}"
-        ctx.correspondence(nm, len(src_items), len(bad), det)
-        if bad:
-            ctx.not_shown("correspondence " + nm, det)
+    settle(ctx, None, nm, len(src_items), bad, log, lambda b: f"{len(b)} cases, first: {src_shown[b[0]][1:]} of\n{src_shown[b[0]][0]}")
 
 
 # ---------------------------------------------------------------------------
